@@ -75,6 +75,10 @@ class SlotWorld:
             return n + 1 + a % 300
         if sel == "far":
             return n + 1000 + a
+        if sel == "toobig":
+            # a legal 64-bit offset whose write would end beyond the largest share the server stores
+            from allmydata.storage.mutable import MutableShareFile
+            return MutableShareFile.MAX_SIZE + a % 3
         return a % 400
 
     def build_tw(self, si_i, spec, step):
@@ -150,6 +154,16 @@ class SlotWorld:
             after = store.snapshot(self.ss.sharedir)
             ctx.check(after == before, "not-atomic", "%s: refused request changed share files: %r" % (what, sorted(k for k in set(before) | set(after) if before.get(k) != after.get(k))))
             return "bad-enabler"
+        from allmydata.storage.mutable import MutableShareFile
+        too_big = [(sh, o) for sh, (testv, datav, newlen) in sorted(tw.items()) for (o, d) in datav if o + len(d) > MutableShareFile.MAX_SIZE]
+        if too_big and (err is not None or tests_ok):
+            # a write the server cannot carry out: the request may be refused, but then as a whole
+            self.classes.add("write-beyond-max-size")
+            ctx.check(err is not None, "oversized-write-accepted", "%s: a write ending beyond MAX_SIZE was reported as done: %r" % (what, res))
+            after = store.snapshot(self.ss.sharedir)
+            ctx.check(after == before, "not-atomic", "%s: the request failed with %r (write at offset %d of share %d ends beyond the maximum share size) but changed share files: %r" % (
+                what, err, too_big[0][1], too_big[0][0], sorted(k for k in set(before) | set(after) if before.get(k) != after.get(k))), oversized=True)
+            return "refused-oversized"
         if err is not None:
             ctx.fail("rtw-raised", "%s: raised %r" % (what, err))
             return "raised"
